@@ -67,6 +67,9 @@ func (h *Handler) handleDiscover(p packet.DHCP4, options packet.DHCP4Options) (d
 		if lease.DHCPExpiry.Before(now) { // expired
 			lease.IPOffer = netip.Addr{}
 		}
+		if !h.available(lease, lease.Addr.IP) { // address meanwhile used by another host
+			lease.IPOffer = netip.Addr{}
+		}
 
 	// more than one discover packet
 	// Android sends two discover packets in quick succession
